@@ -80,7 +80,7 @@ def block_dense(bl):
 
 
 def network_part(ck, tier, seed):
-    n = tier_n(tier, 40, 1200)
+    n = tier_n(tier, 120, 1200)
     fr = netgen.Frame()
     jobs = []
     for i in range(n):
@@ -204,7 +204,7 @@ def network_part(ck, tier, seed):
 # ---------------------------------------------------------------- (c) whitened reformulation, solver level
 
 def whitening_part(ck, tier, seed):
-    n = tier_n(tier, 60, 2000)
+    n = tier_n(tier, 180, 2000)
     items, info = [], []
     for i in range(n):
         rng = np.random.default_rng([seed, i, 1011])
@@ -287,7 +287,7 @@ def malformed_variants(rng, net):
 
 
 def rejection_part(ck, tier, seed):
-    n = tier_n(tier, 10, 150)
+    n = tier_n(tier, 30, 150)
     fr = netgen.Frame()
     jobs = []
     for i in range(n):
